@@ -24,6 +24,14 @@ def is_neg_test(c):
     if inner[0] == 'comp' and inner[1] in ('list', 'gen') and len(inner[3]) == 1 and fmt(inner[3][0][1]) == 'weights.values()' and len(inner[3][0][2]) == 1:
         bv = inner[3][0][0][0]
         return inner[2] == bv and inner[3][0][2][0] in (('not', ('cmp', '<=', num(0), bv)), ('cmp', '<', bv, num(0)))
+    # "is there a first negative one?": next((k for k, w in weights.items() if w < 0), <sentinel>) compared with the sentinel - any comprehension over the weights whose
+    # only filter is `w < 0`, whatever is done with its first element
+    for s_ in T.subterms(c):
+        if s_[0] == 'comp' and s_[1] in ('list', 'gen') and len(s_[3]) == 1 and fmt(s_[3][0][1]) in ('weights.values()', 'weights.items()') and len(s_[3][0][2]) == 1:
+            wv = s_[3][0][0][-1]
+            if s_[3][0][2][0] in (('not', ('cmp', '<=', num(0), wv)), ('cmp', '<', wv, num(0))) and any(z_[0] == 'call' and z_[1] in (('ext', 'builtins.next'), ('ext', 'NEXT')) for z_ in T.subterms(c)):
+                # `next(...) is <sentinel>` is true when there is NO negative weight: the test with its sense reversed
+                return 'inv' if c[0] == 'cmp' and c[1] in ('is', '==') else None
     return False
 
 
@@ -160,8 +168,9 @@ def s2_guards(ctx):
     for p in ps:
         neg = None
         for c, v, _ in p.conds:
-            if is_neg_test(c):
-                neg = v
+            r_ = is_neg_test(c)
+            if r_:
+                neg = (not v) if r_ == 'inv' else v
         if p.outcome == 'raise':
             ctx.require(neg is True and p.state.exc[1] == 'ValueError', 'C10.S2', 'a negative weight is rejected with ValueError', p.state.exc[2], cond_str(p)[:120], key='C10.S2|neg-raise')
         else:
@@ -176,7 +185,7 @@ def s2_guards(ctx):
             ctx.require(ok, 'C10.S2', 'an empty target is returned only for an empty weight dict', ctx.fn(CN + '.__call__').site(), cond_str(p)[:120], key='C10.S2|empty-only')
     for s in sp:
         p = s['path']
-        ok = any(is_neg_test(c) and not v for c, v, _ in p.conds)
+        ok = any((is_neg_test(c) == 'inv' and v) or (is_neg_test(c) is True and not v) for c, v, _ in p.conds)
         ctx.require(ok, 'C10.S2', 'sizing runs only after the weights were validated and normalised [%s]' % cond_str(p)[:60], ctx.fn(CN + '.__call__').site(), key='C10.S2|normalise-first')
         seen_raise = False
         if not any(b['price'] for b in s['bodies']):
